@@ -30,7 +30,9 @@ def nilDstPanics (acfg : AssignCfg) (dk : DynKind) (s : Src) (noBuf : Bool) : Bo
   | .string =>
     (match s.kind.family with
      | .text => true
-     | _ => if noBuf then true else (match renderSrc s with | .unknown => false | _ => true))
+     -- without a buffer the original library read `*dst` before converting; since `fix: AssignToStr without
+     -- a buffer …` it writes `*dst` only when the conversion succeeded, like the buffered branch
+     | _ => if noBuf && acfg.strAppendsOld then true else (match renderSrc s with | .unknown => false | _ => true))
   | .bool => s.kind.family != .foreign
   | .foreign => false
   | _ => (match assignM acfg dk (.int 0) s noBuf with | .no => false | _ => true)
